@@ -16,7 +16,7 @@ RULE = ("render: formats %[-+ 0#]*[w][.p]{d,f} (all 32 flag subsets x widths {-,
         "every format family. device layer: seeded 40-step histories on the four Number elements of one long-lived generated driver - values "
         "stored by assignment, client newNumberVector, reset_value and a refreshing Read handler, rendered in between by "
         "to_set_message / to_def_message / getProperties / a state change / an update caused by another element - every rendered text "
-        "must denote the element's current value to within the format's resolution. non-trivial = every case (each is a distinct (format,value) or (format,text) pair); "
+        "must denote the element's current value to within the format's resolution; a third of the readings that go through reset_value / a Read handler are handed in as Decimal, Fraction or a float subclass and the rendering is judged against the number handed in. non-trivial = every case (each is a distinct (format,value) or (format,text) pair); "
         "distinct = hash of that pair")
 ASSUMPTIONS = ["tolerance = the format's resolution + a few ulp, so rounding and truncating renderers both pass",
                "non-canonical fields such as 1:60 are accepted; exponent notation and non-finite values are not demanded",
